@@ -94,6 +94,7 @@ def run(chk):
         elif meta.get("exception") is None and not meta["values_equal_numpy"]:
             chk.drift.append(dict(note="values differ from NumPy although the trace is clean (C01's business)", meta=meta))
     backup_runs(chk)
+    realexec.report_failed_runs(chk, "C07", metas)
     suitetrace.run(chk, "C07")      # every computation of the repository's own tests, judged by the same monitor
     if first_ok is not None:
         realexec.selftest(chk, "C07", first_ok)
